@@ -16,6 +16,7 @@ import re
 from .. import astutil as A
 from ..fa import FA
 from ..loader import AnalysisError, FuncInfo
+from . import partition_model as PM
 
 # constructor keyword -> configuration key (names differ only here)
 ARG_TO_KEY = {"read_only": "readonly"}
@@ -26,6 +27,208 @@ BACKENDS = [
     ("runner_local", "LocalRunnerBackend", "runner"),
     ("runner_null", "NullRunnerBackend", "runner"),
 ]
+
+
+# =====================================================================================================
+# one spelling: literal loops unrolled, constant-keyed scratch dicts as locals, setattr / getattr with a constant
+# name as attribute access, map(lambda) as a comprehension
+# =====================================================================================================
+def _subst_names(node, env):
+    class S(ast.NodeTransformer):
+        def visit_Name(self, n):
+            if n.id in env and isinstance(n.ctx, ast.Load):
+                return copy.deepcopy(env[n.id])
+            return n
+
+    return S().visit(copy.deepcopy(node))
+
+
+def _const_attr_access(node):
+    """setattr(o, 'a', v) as a statement -> o.a = v; getattr(o, 'a') -> o.a; list(map(lambda x: E, IT)) -> [E for x in IT]"""
+    class G(ast.NodeTransformer):
+        def visit_Call(self, n):
+            self.generic_visit(n)
+            if isinstance(n.func, ast.Name) and n.func.id == "getattr" and len(n.args) == 2 and not n.keywords and A.const_str(n.args[1]) \
+                    and A.const_str(n.args[1]).isidentifier():
+                return ast.copy_location(ast.Attribute(value=n.args[0], attr=A.const_str(n.args[1]), ctx=ast.Load()), n)
+            if isinstance(n.func, ast.Name) and n.func.id in ("list", "tuple") and len(n.args) == 1 and not n.keywords and isinstance(n.args[0], ast.Call) \
+                    and isinstance(n.args[0].func, ast.Name) and n.args[0].func.id == "map" and len(n.args[0].args) == 2 and not n.args[0].keywords \
+                    and isinstance(n.args[0].args[0], ast.Lambda):
+                lam, it = n.args[0].args
+                a = lam.args
+                if len(a.args) == 1 and not (a.vararg or a.kwarg or a.kwonlyargs or a.posonlyargs or a.defaults):
+                    gen = ast.comprehension(target=ast.Name(id=a.args[0].arg, ctx=ast.Store()), iter=it, ifs=[], is_async=0)
+                    return ast.copy_location(ast.ListComp(elt=lam.body, generators=[gen]), n)
+            return n
+
+    node = G().visit(node)
+    if isinstance(node, ast.Expr) and isinstance(node.value, ast.Call) and isinstance(node.value.func, ast.Name) and node.value.func.id == "setattr" \
+            and len(node.value.args) == 3 and not node.value.keywords and A.const_str(node.value.args[1]) and A.const_str(node.value.args[1]).isidentifier():
+        c = node.value
+        tgt = ast.Attribute(value=c.args[0], attr=A.const_str(c.args[1]), ctx=ast.Store())
+        return ast.fix_missing_locations(ast.copy_location(ast.Assign(targets=[tgt], value=c.args[2], type_comment=None), node))
+    return node
+
+
+def _plain_stmt(mod):
+    def one(st):
+        if isinstance(st, ast.For) and not st.orelse:
+            it = st.iter
+            if isinstance(it, ast.Name) and it.id in mod.assigns:
+                it = mod.assigns[it.id]
+            names = [st.target.id] if isinstance(st.target, ast.Name) else \
+                ([x.id for x in st.target.elts] if isinstance(st.target, (ast.Tuple, ast.List)) and all(isinstance(x, ast.Name) for x in st.target.elts) else None)
+            jumps = any(isinstance(x, (ast.Break, ast.Continue)) for b in st.body for x in A.walk_local(b))
+            rebinds = names is not None and any(isinstance(x, ast.Name) and isinstance(x.ctx, ast.Store) and x.id in names for b in st.body for x in ast.walk(b))
+            if isinstance(it, (ast.Tuple, ast.List)) and 0 < len(it.elts) <= 16 and names is not None and not jumps and not rebinds \
+                    and not any(isinstance(e, ast.Starred) for e in it.elts):
+                rows = []
+                for e in it.elts:
+                    if isinstance(st.target, ast.Name):
+                        rows.append({names[0]: e})
+                    elif isinstance(e, (ast.Tuple, ast.List)) and len(e.elts) == len(names) and not any(isinstance(x, ast.Starred) for x in e.elts):
+                        rows.append(dict(zip(names, e.elts)))
+                    else:
+                        rows = None
+                        break
+                # an element is put in as often as the body mentions the loop variable: only elements without effects
+                simple = lambda x: isinstance(x, (ast.Constant, ast.Name)) or (isinstance(x, ast.Attribute) and simple(x.value))
+                if rows is not None and all(simple(v) for r_ in rows for v in r_.values()):
+                    out = []
+                    for r_ in rows:
+                        for b in st.body:
+                            nb = _subst_names(b, r_)
+                            PM._rewrite_blocks(nb, one)
+                            out += one(ast.fix_missing_locations(nb))
+                    return out
+        if isinstance(st, (ast.Expr, ast.Assign, ast.AnnAssign, ast.AugAssign, ast.Return)):
+            return [_const_attr_access(st)]
+        if isinstance(st, (ast.If, ast.While)):
+            st.test = _const_attr_access(st.test)
+        return [st]
+
+    return one
+
+
+def _scalarise(node):
+    """A local dict that is only ever used as `d['k']` with constant keys (after `d = {}` / a literal with constant
+    keys) is a bundle of locals: d['k'] -> d__k."""
+    uses = {}
+    pm = A.parent_map(node)
+    for x in A.walk_body(node):
+        if isinstance(x, ast.Name):
+            uses.setdefault(x.id, []).append(x)
+    params = {a.arg for a in node.args.posonlyargs + node.args.args + node.args.kwonlyargs} | ({node.args.vararg.arg} if node.args.vararg else set()) | \
+        ({node.args.kwarg.arg} if node.args.kwarg else set())
+    for name, occ in uses.items():
+        if name in params:
+            continue
+        inits, ok = [], True
+        for x in occ:
+            p_ = pm.get(x)
+            if isinstance(p_, ast.Assign) and len(p_.targets) == 1 and p_.targets[0] is x and (
+                    _is_empty_dict(p_.value) or (isinstance(p_.value, ast.Dict) and p_.value.keys and all(k is not None and A.const_str(k) for k in p_.value.keys))):
+                inits.append(p_)
+            elif isinstance(p_, ast.Subscript) and p_.value is x and A.const_str(p_.slice) and not isinstance(pm.get(p_), ast.Delete):
+                pass
+            else:
+                ok = False
+        if not ok or len(inits) != 1:
+            continue
+        local = lambda k: "%s__%s" % (name, re.sub(r"\W", "_", k))
+
+        class R(ast.NodeTransformer):
+            def visit_Subscript(self, n):
+                self.generic_visit(n)
+                if isinstance(n.value, ast.Name) and n.value.id == name and A.const_str(n.slice):
+                    return ast.copy_location(ast.Name(id=local(A.const_str(n.slice)), ctx=n.ctx), n)
+                return n
+
+        init = inits[0]
+
+        def one(st):
+            if st is init:
+                if isinstance(init.value, ast.Dict) and init.value.keys:
+                    return [ast.fix_missing_locations(ast.copy_location(ast.Assign(targets=[ast.Name(id=local(A.const_str(k)), ctx=ast.Store())], value=v, type_comment=None), init))
+                            for k, v in zip(init.value.keys, init.value.values)]
+                return []
+            return [st]
+
+        PM._rewrite_blocks(node, one)
+        R().visit(node)
+        ast.fix_missing_locations(node)
+    return node
+
+
+def _index_loops(node):
+    """`i = 0` ... `while i < len(S): x = S[i]; BODY; i += 1` with the counter used for nothing else  ->
+    `for x in S: BODY` (the positions of a sequence visited in order are its elements in order)."""
+    uses = {}
+    for x in A.walk_body(node):
+        if isinstance(x, ast.Name):
+            uses.setdefault(x.id, []).append(x)
+    pm = A.parent_map(node)
+
+    def one(st):
+        if not (isinstance(st, ast.While) and not st.orelse and len(st.body) >= 2):
+            return [st]
+        t = st.test
+        if not (isinstance(t, ast.Compare) and len(t.ops) == 1 and isinstance(t.ops[0], ast.Lt) and isinstance(t.left, ast.Name)
+                and isinstance(t.comparators[0], ast.Call) and isinstance(t.comparators[0].func, ast.Name) and t.comparators[0].func.id == "len"
+                and len(t.comparators[0].args) == 1):
+            return [st]
+        i, seq = t.left.id, t.comparators[0].args[0]
+        first, last = st.body[0], st.body[-1]
+        if not (isinstance(first, ast.Assign) and len(first.targets) == 1 and isinstance(first.targets[0], ast.Name) and isinstance(first.value, ast.Subscript)
+                and A.norm(first.value.value) == A.norm(seq) and isinstance(first.value.slice, ast.Name) and first.value.slice.id == i):
+            return [st]
+        if not (isinstance(last, ast.AugAssign) and isinstance(last.op, ast.Add) and isinstance(last.target, ast.Name) and last.target.id == i
+                and isinstance(last.value, ast.Constant) and last.value.value == 1):
+            return [st]
+        if any(isinstance(x, ast.Continue) for b in st.body for x in A.walk_local(b)):
+            return [st]
+        # the counter: set to 0 before, tested, used to pick the element, stepped -- nothing else
+        for x in uses.get(i, []):
+            p_ = pm.get(x)
+            fine = x is t.left or x is first.value.slice or x is last.target or \
+                (isinstance(p_, ast.Assign) and len(p_.targets) == 1 and p_.targets[0] is x and isinstance(p_.value, ast.Constant) and p_.value.value == 0)
+            if not fine:
+                return [st]
+        # the sequence is not changed while it is walked
+        seq_txt = A.norm(seq)
+        for b in st.body:
+            for x in A.walk_local(b):
+                if isinstance(x, (ast.Assign, ast.AugAssign, ast.Delete)) and seq_txt in A.norm(x).split(" = ")[0] and x is not first:
+                    return [st]
+                if isinstance(x, ast.Call) and isinstance(x.func, ast.Attribute) and A.norm(x.func.value) == seq_txt and x.func.attr in _MUTATORS:
+                    return [st]
+        loop = ast.For(target=first.targets[0], iter=seq, body=st.body[1:-1] or [ast.Pass()], orelse=[], type_comment=None)
+        return [ast.fix_missing_locations(ast.copy_location(loop, st))]
+
+    PM._rewrite_blocks(node, one)
+    return node
+
+
+def _plain(ck, fi):
+    memo = ck.__dict__.setdefault("_c18_plain", {})
+    key = (fi.qual, id(fi.node))
+    if key not in memo:
+        node = copy.deepcopy(fi.node)
+        try:
+            PM._rewrite_blocks(node, _plain_stmt(fi.module))
+            node = _scalarise(node)
+            node = _index_loops(node)
+            changed = ast.dump(node) != ast.dump(fi.node)
+        except RecursionError:
+            changed = False
+        memo[key] = FuncInfo(fi.module, ast.fix_missing_locations(node), fi.qual, cls=fi.cls, parent=fi.parent) if changed else fi
+    return memo[key]
+
+
+def _FA(ck, qual_or_fi):
+    """The per-function bundle of the function in its plain spelling (see above)."""
+    fi = ck.fn(qual_or_fi) if isinstance(qual_or_fi, str) else qual_or_fi
+    return FA(ck, _plain(ck, fi))
 
 
 def _str_const(ck, mod, cls, e, depth=3):
@@ -405,7 +608,7 @@ def _value_cases(ck, fa: FA, lits, value, env, depth=3):
             continue
         env0 = {k: v for k, v in env.items() if k.startswith("self.")}
         env0.update(bound)
-        cfa = FA(ck, callee)
+        cfa = _FA(ck, callee)
         ps = _sym_paths(cfa, env0)
         if ps is None:
             out.append((ll, e))
@@ -444,7 +647,7 @@ def _config_reads(ck, cls, membership=False):
         if tag in seen or depth > 3:
             return
         seen.add(tag)
-        fa = FA(ck, fi)
+        fa = _FA(ck, fi)
 
         def is_cfg(e, at, stack=()):
             """True (the configuration object) / 'empty' (an empty dict standing in for it) / False"""
@@ -485,7 +688,7 @@ def _config_reads(ck, cls, membership=False):
                     return [A.const_str(x) for x in ds[0].value.elts]
             return []
 
-        for n in A.walk_body(fi.node):
+        for n in A.walk_body(fa.node):
             if not isinstance(n, (ast.Call, ast.Subscript, ast.Compare)):
                 continue
             ids = fa.nodes(n)
@@ -525,6 +728,7 @@ def _dump_entries(fa: FA):
     `d.update({k: v for k, v in ((K1, v1), ...) if ...})`, `d.setdefault(K, v)`.  `conditional` says whether the
     entry is written on every call."""
     entries = []
+    pruned = set()  # dictionaries whose entries pass a filter on their way into the returned one
     names = {r.value.id for r in fa.returns() if isinstance(r.value, ast.Name)}
 
     def bases(e):
@@ -539,6 +743,15 @@ def _dump_entries(fa: FA):
             return {A.call_recv(e).id}
         if isinstance(e, ast.BinOp) and isinstance(e.op, ast.BitOr):
             return bases(e.left) | bases(e.right)
+        if isinstance(e, ast.DictComp) and len(e.generators) == 1:
+            # {k: v for k, v in x.items() if <filter>}: the entries of x, each one possibly left out
+            g = e.generators[0]
+            if isinstance(g.iter, ast.Call) and A.call_attr(g.iter) == "items" and not g.iter.args and isinstance(A.call_recv(g.iter), ast.Name) \
+                    and isinstance(g.target, (ast.Tuple, ast.List)) and len(g.target.elts) == 2 and A.norm(e.key) == A.norm(g.target.elts[0]) \
+                    and A.norm(e.value) == A.norm(g.target.elts[1]):
+                if g.ifs:
+                    pruned.add(A.call_recv(g.iter).id)
+                return {A.call_recv(g.iter).id}
         return set()
 
     for r in fa.returns():
@@ -605,7 +818,8 @@ def _dump_entries(fa: FA):
             tg = st.targets if isinstance(st, ast.Assign) else [st.target]
             for t in tg:
                 if isinstance(t, ast.Name) and t.id in names:
-                    from_mapping(st.value if isinstance(st.value, (ast.Dict, ast.Call, ast.List, ast.Tuple)) else expanded(st.value, st), st, cond(st), "literal")
+                    from_mapping(st.value if isinstance(st.value, (ast.Dict, ast.Call, ast.List, ast.Tuple)) else expanded(st.value, st), st,
+                                 cond(st) or t.id in pruned, "literal")
                 if isinstance(t, ast.Subscript) and isinstance(t.value, ast.Name) and t.value.id in names:
                     if A.const_str(t.slice) is not None:
                         entries.append(_Entry(A.const_str(t.slice), st.value, cond(st), st, "store"))
@@ -652,7 +866,7 @@ def check_base_dir_final_before_use(ck, R):
     cluster / repository files are resolved against the value that results: on every path class, the directory
     handed to _load_config(...) inside the constructor is the value self.base_dir finally holds."""
     for q in ("configuration.ConfigurationRepository.__init__", "configuration.Environment.__init__"):
-        fa = FA(ck, q)
+        fa = _FA(ck, q)
         lcf = ck.repo.try_func("configuration._load_config")
         first = lcf.params[0] if lcf is not None and lcf.params else "base_dir"
         loads = [c for c in fa.calls("_load_config") if A.arg_or_kw(c, 0, first) is not None]
@@ -702,7 +916,7 @@ def check_config_not_mutated(ck, R):
                 params = [p for p in m.params if p in ("config", "configuration", "cfg", "env_config", "storage_config", "runner_config")]
                 if not params:
                     continue
-                fa = FA(ck, m)
+                fa = _FA(ck, m)
                 n += 1
                 # a local that IS the caller's object (`cfg = config`, `cfg = {} if config is None else config`)
                 grew = True
@@ -729,7 +943,7 @@ def _precedence(ck, R2, q):
     """For every constructor parameter p that is stored somewhere (a field or a local that also receives a value read
     from the configuration): on no path class does a configuration-derived value end up there unless `p is None`,
     and on some path class p itself does.  -> number of (parameter, slot) pairs decided."""
-    fa = FA(ck, q)
+    fa = _FA(ck, q)
     paths = _sym_paths(fa)
     ck.need(paths is not None, "%s: too many paths" % q)
     paths = [p for p in paths if p.end == "exit"]
@@ -769,7 +983,7 @@ def _cluster_backend_precedence(ck, R2, cfgm):
     """FunctionCluster: the storage / runner is the explicit object when one is given; otherwise the backend created
     from the configured section (its 'type' and the section itself) when the configuration has one; otherwise the
     default type with the default configuration."""
-    fc = FA(ck, "configuration.FunctionCluster.__init__")
+    fc = _FA(ck, "configuration.FunctionCluster.__init__")
     paths = _sym_paths(fc)
     ck.need(paths is not None, "FunctionCluster.__init__: too many paths")
     paths = [p for p in paths if p.end == "exit"]
@@ -818,7 +1032,7 @@ def _cluster_backend_precedence(ck, R2, cfgm):
 # =====================================================================================================
 def _registry_name(ck, q):
     """The module-level table that register() stores into (found by what register() does)."""
-    fa = FA(ck, q)
+    fa = _FA(ck, q)
     names = set()
     for s in fa.stmts(ast.Assign):
         for t in s.targets:
@@ -832,7 +1046,7 @@ def _registry_name(ck, q):
 
 def _create_rule(ck, R3):
     for q in ("storage.StorageBackend.create", "runner.RunnerBackend.create"):
-        fa = FA(ck, q)
+        fa = _FA(ck, q)
         reg = _registry_name(ck, q.rsplit(".", 1)[0] + ".register")
         params = [p for p in fa.fi.params if p not in ("cls", "self")]
         ck.need(len(params) == 2, "%s: expected (type, config) parameters" % q)
@@ -867,7 +1081,7 @@ def _create_rule(ck, R3):
 # R4: cluster search
 # =====================================================================================================
 def _first_match(ck, R4):
-    gc = FA(ck, "configuration.Environment.get_cluster")
+    gc = _FA(ck, "configuration.Environment.get_cluster")
     nm = [p for p in gc.fi.params if p != "self"][0]
     cfg = gc.cfg
     heads = [n for n in cfg.nodes if n.kind == "for" and n.id in cfg.reachable_nodes()]
@@ -908,6 +1122,8 @@ def _first_match(ck, R4):
         for s in A.walk_local(loop):
             if not isinstance(s, (ast.Return, ast.Assign)) or s.value is None or why:
                 continue
+            if any(gc.inside(s, b) for b in loop.orelse):
+                continue  # runs once the repositories are exhausted: judged with the no-hit exits below
             if isinstance(s, ast.Assign) and not (len(s.targets) == 1 and isinstance(s.targets[0], ast.Name)):
                 continue
             ids = gc.nodes(s)
@@ -994,8 +1210,8 @@ def _first_match(ck, R4):
 
 
 def _priority_ends(ck, R4):
-    pr = FA(ck, "configuration.Environment.prepend_repo")
-    ap = FA(ck, "configuration.Environment.append_repo")
+    pr = _FA(ck, "configuration.Environment.prepend_repo")
+    ap = _FA(ck, "configuration.Environment.append_repo")
 
     def shapes(fa):
         p = [x for x in fa.fi.params if x != "self"][0]
@@ -1038,7 +1254,7 @@ def _priority_ends(ck, R4):
 def _repo_order(ck, R4):
     """Environment.__init__: the configured repositories are built by ONE pass over the 'repos' list of the
     configuration, in list order (a comprehension without filter, or a loop that appends)."""
-    ei = FA(ck, "configuration.Environment.__init__")
+    ei = _FA(ck, "configuration.Environment.__init__")
 
     def reads_repos(e, at):
         try:
@@ -1456,8 +1672,8 @@ def check_nested_dumps(ck, R, reads_of):
     n = 0
     for clsname in ("FunctionCluster", "ConfigurationRepository", "Environment"):
         cls = cfgm.classes[clsname]
-        init = FA(ck, cls.methods["__init__"])
-        td = FA(ck, cls.methods["to_dict"])
+        init = _FA(ck, cls.methods["__init__"])
+        td = _FA(ck, cls.methods["to_dict"])
         entries = _dump_entries(td)
         fields = set()
         for s in init.stmts(ast.Assign):
@@ -1794,7 +2010,7 @@ def check_template_parameters_verbatim(ck, R):
     parameters, and it is built without value-transforming options (autoescape on, finalize) or another syntax."""
     ck.rule(R, "template parameters of a configuration file reach the parsed configuration as given: the parsed text is the rendered template, "
                "rendered with the caller's keyword arguments, by a template built without escaping / finalizing / another syntax", 4)
-    fa = FA(ck, "configuration._load_config")
+    fa = _FA(ck, "configuration._load_config")
     mod = _Imports(fa.fi.module, fa.node)
     ck.need(fa.node.args.kwarg is not None, "configuration._load_config: no **kwargs parameter (the template parameters)")
     KW = fa.node.args.kwarg.arg
@@ -1822,7 +2038,7 @@ def check_template_parameters_verbatim(ck, R):
     for f in fa.fi.module.all_funcs():
         if f.node.args.kwarg is None or f.qual == fa.qual or f.parent is not None:
             continue
-        ff = FA(ck, f)
+        ff = _FA(ck, f)
         for c in ff.calls(fa.fi.name):
             if not ff.nodes(c):
                 continue
@@ -1903,7 +2119,7 @@ def check(ck):
         ck.need(cls is not None, "%s.%s not found" % (modname, clsname))
         doc = _doc_options(mod)
         reads = _config_reads(ck, cls)
-        td = FA(ck, cls.methods["to_dict"]) if "to_dict" in cls.methods else None
+        td = _FA(ck, cls.methods["to_dict"]) if "to_dict" in cls.methods else None
         ck.need(td is not None, "%s.to_dict not found" % cls.qual)
         entries = _dump_entries(td)
         dumped = {e.key for e in entries}
@@ -1979,7 +2195,7 @@ def check(ck):
     _create_rule(ck, R3)
     # filesystem specifics: options forwarded to the base backend; sources rooted at the configured paths
     fsc = ck.repo.module("storage_filesystem").classes["FilesystemStorageBackend"]
-    fsi = FA(ck, "storage_filesystem.FilesystemStorageBackend.__init__")
+    fsi = _FA(ck, "storage_filesystem.FilesystemStorageBackend.__init__")
     sup = fsi.one([c for c in fsi.calls("__init__") if isinstance(A.call_recv(c), ast.Call)], "super().__init__ call")
     binit = next((c.methods["__init__"] for c in ck.repo.mro(fsc)[1:] if "__init__" in c.methods), None)
     bparams = [p for p in binit.params if p != "self"] if binit is not None else []
@@ -2031,7 +2247,7 @@ def check(ck):
           "the metadata path is derived from the final value of the data path" if bad is None else
           "the metadata path ends up as `%s` where the data path is `%s`: it was derived before the explicit argument / default for the data path "
           "is applied; with config path A and argument path=B the derived option still points at A" % (A.short(bad[0], 60), ", ".join(bad[1])[:60]), fsi.where())
-    sbi = FA(ck, "storage_base.StorageBackendBase.__init__")
+    sbi = _FA(ck, "storage_base.StorageBackendBase.__init__")
     mc = [c for c in sbi.calls("MemoryCache")]
     okm = len(mc) == 1 and len(mc[0].args) + len(mc[0].keywords) == 1 and \
         "param:memory_cache_mb" in sbi.deps((mc[0].args + [k.value for k in mc[0].keywords])[0], sbi.nodes(mc[0])[0]) and \
@@ -2043,7 +2259,7 @@ def check(ck):
         cls = cfgm.classes[clsname]
         reads = _config_reads(ck, cls, membership=True)
         reads_of[clsname] = reads
-        td = FA(ck, cls.methods["to_dict"])
+        td = _FA(ck, cls.methods["to_dict"])
         dumped = {e.key for e in _dump_entries(td)}
         ok = reads == dumped
         ck.ob(R1, cls.qual + "::read-equals-dumped", ok, "%s reads and dumps the same keys %s" % (clsname, sorted(reads)) if ok else
@@ -2062,7 +2278,7 @@ def check(ck):
     # file loaders: sibling agreement — both split the path into (directory, file name) so that a
     # relative path is resolved against its own directory
     for q in ("configuration.ConfigurationRepository.from_file", "configuration.Environment.from_file"):
-        f = FA(ck, q)
+        f = _FA(ck, q)
         lc = f.one(f.calls("_load_config"), "_load_config call")
         pth = f.fi.params[0] if f.fi.is_static else f.fi.params[1]
         a0 = f.deps(lc.args[0]) if lc.args else set()
